@@ -482,14 +482,33 @@ func classifyLoop(fn *ssa.Function, cf *cfgx.Info, h int) string {
 		}
 		return nil, false
 	}
-	invariant := func(v ssa.Value) bool {
+	var invariant func(v ssa.Value) bool
+	invariant = func(v ssa.Value) bool {
 		if _, ok := v.(*ssa.Const); ok {
 			return true
 		}
-		if ins, ok := v.(ssa.Instruction); ok {
-			return !inLoop[ins.Block().Index]
+		ins, ok := v.(ssa.Instruction)
+		if !ok {
+			return true // parameters, free variables
 		}
-		return true // parameters, free variables
+		if !inLoop[ins.Block().Index] {
+			return true
+		}
+		// recomputed inside the loop from loop-invariant values by a pure operation: len(x), conversions, arithmetic
+		switch x := v.(type) {
+		case *ssa.Call:
+			if b, isB := x.Common().Value.(*ssa.Builtin); isB && (b.Name() == "len" || b.Name() == "cap") && len(x.Common().Args) == 1 {
+				// the length of a slice value that is not reassigned in the loop (slices are immutable values in SSA)
+				return invariant(x.Common().Args[0])
+			}
+		case *ssa.Convert:
+			return invariant(x.X)
+		case *ssa.ChangeType:
+			return invariant(x.X)
+		case *ssa.BinOp:
+			return invariant(x.X) && invariant(x.Y)
+		}
+		return false
 	}
 	var phi *ssa.Phi
 	var bound ssa.Value
